@@ -365,6 +365,8 @@ type fakeConn struct {
 	// a real peer waits for the answers before it hangs up: after the script is consumed Read
 	// reports timeouts until the node has been quiet for `quiet` (bounded by maxLinger)
 	quiet, maxLinger time.Duration
+	minPolls         int // ... and for at least that many polls (a descheduled process makes no polls)
+	pollsQuiet       int
 	exhaustedAt      time.Time
 	lastWrite        time.Time
 
@@ -376,6 +378,7 @@ type fakeConn struct {
 	wbuf      []byte
 	sent      map[string]int
 	sentBytes int
+	writes    int
 	versionPl []byte
 }
 
@@ -399,7 +402,8 @@ func (f *fakeConn) Read(b []byte) (int, error) {
 		if f.lastWrite.After(ref) {
 			ref = f.lastWrite
 		}
-		if now.Sub(ref) < f.quiet && now.Sub(f.exhaustedAt) < f.maxLinger {
+		f.pollsQuiet++
+		if f.pollsQuiet < f.minPolls || (now.Sub(ref) < f.quiet && now.Sub(f.exhaustedAt) < f.maxLinger) {
 			f.mu.Unlock()
 			time.Sleep(300 * time.Microsecond)
 			f.mu.Lock()
@@ -441,6 +445,8 @@ func (f *fakeConn) Write(b []byte) (int, error) {
 		return 0, net.ErrClosed
 	}
 	f.sentBytes += len(b)
+	f.writes++
+	f.pollsQuiet = 0
 	f.lastWrite = time.Now()
 	f.wbuf = append(f.wbuf, b...)
 	for len(f.wbuf) >= 24 {
@@ -522,6 +528,7 @@ type scriptResult struct {
 	LastTag    string         `json:"last_tag"`     //
 	Misbehave  int            `json:"misbehave"`    // score reported by the node
 	Micros     int64          `json:"us"`
+	Diag       string         `json:"diag,omitempty"`
 	LogExcerpt string         `json:"log,omitempty"`
 }
 
@@ -684,9 +691,9 @@ func (h *harness) runScript(s *script) *scriptResult {
 	}
 	fc := newFakeConn(data, chunk, s.Timeouts)
 	fc.stall = s.Stall
-	fc.quiet, fc.maxLinger = 2*time.Millisecond, 150*time.Millisecond
+	fc.quiet, fc.maxLinger, fc.minPolls = 2*time.Millisecond, 150*time.Millisecond, 6
 	if s.Idx < 0 { // self-test: be patient, the answers are part of the check
-		fc.quiet, fc.maxLinger = 150*time.Millisecond, 5*time.Second
+		fc.quiet, fc.maxLinger, fc.minPolls = 100*time.Millisecond, 5*time.Second, 150
 	}
 
 	h.nextIP++
@@ -746,6 +753,7 @@ func (h *harness) runScript(s *script) *scriptResult {
 	}
 	fc.mu.Lock()
 	pos := fc.pos
+	res.Diag = fmt.Sprintf("reads=%d writes=%d wbytes=%d linger=%v lastWriteAfterExhaust=%v", fc.reads, fc.writes, fc.sentBytes, time.Since(fc.exhaustedAt), fc.lastWrite.Sub(fc.exhaustedAt))
 	res.Closed = fc.closed
 	res.EOF = fc.eofSeen
 	res.Sent = fc.sent
